@@ -55,9 +55,14 @@ def setup():
 def gen_world(rng: SimRandom) -> dict:
     na = rng.randint(1, 6)
     nf = rng.randint(2, 24)
+    huge = False
     if rng.chance(0.06):  # swarm: an occasional much larger system (size thresholds, buffer/stride effects)
         na = rng.randint(7, 40)
         nf = rng.randint(25, 300)
+    elif rng.chance(0.015):  # ... and rarely a really big one (> 2**18 coordinate values); expensive queries are skipped on it
+        na = rng.randint(50, 80)
+        nf = rng.randint(1200, 2500)
+        huge = True
     grid = rng.pick([7, 9, 11]) if rng.chance(0.3) else None
     kinds = rng.sample(worlds.SPECIES_POOL, rng.randint(1, min(3, na)))
     if rng.chance(0.3) and na >= 2:
@@ -80,10 +85,12 @@ def gen_world(rng: SimRandom) -> dict:
         'n_sites': n_sites,
         'site_seed': rng.getrandbits(32),
         'step_bound': rng.pick([0.22, 0.22, 0.22, 0.45]),
+        'huge': huge,
     }
 
 
 ROOT_MODES = ['wrapped', 'unwrapped', 'shifted', 'disp']
+EXPENSIVE = {'rdf', 'plot', 'shape', 'orientations', 'iterate'}
 
 
 def systems_of(world: dict):
@@ -136,6 +143,8 @@ def build_root(w: dict, mode: str, idx: int):
     base, steps, unwrapped = world_arrays(w)
     L = Lattice(worlds.lattice_matrix(w['lattice']))
     md = {'temperature': w['temperature'], 'tag': f'root{idx}'}
+    if idx % 2:
+        md[f'extra{idx % 7}'] = idx  # roots of one system do not all have the same metadata keys
     kw = dict(species=make_species(w), lattice=L, time_step=w['time_step'], metadata=md)
     if mode == 'wrapped':
         T = Trajectory(coords=np.mod(unwrapped, 1.0), **kw)
@@ -146,8 +155,13 @@ def build_root(w: dict, mode: str, idx: int):
         T = Trajectory(coords=np.mod(unwrapped, 1.0) + g.integers(-2, 3, unwrapped.shape), **kw)
     elif mode == 'disp':
         T = Trajectory(coords=steps.copy(), coords_are_displacement=True, base_positions=base.copy(), **kw)
+    elif mode == 'disp_nobase':  # legal (pymatgen only warns): displacements without base positions; positions are undefined
+        T = Trajectory(coords=steps.copy(), coords_are_displacement=True, **kw)
     else:
         raise HarnessError(mode)
+    if mode == 'disp_nobase':
+        return T, {'S': steps.copy(), 'P': np.mod(unwrapped, 1.0), 'species': [str(s) for s in kw['species']], 'symbols': list(w['species']),
+                   'lattice': np.array(L.matrix), 'time_step': w['time_step'], 'metadata': dict(md), 'idx': idx}
     model = {
         'B': np.array(T.base_positions, dtype=float, copy=True),
         'P': np.mod(unwrapped, 1.0),
@@ -255,7 +269,7 @@ def generate(run_seed: int, tier: str = 'quick', stream: str = 'seq') -> dict:
     roots = []
     for si in range(n_sys):
         for _ in range(rng.randint(1, 2)):
-            roots.append([si, rng.pick(ROOT_MODES)])
+            roots.append([si, 'disp_nobase' if rng.chance(0.06) else rng.pick(ROOT_MODES)])
     n_clients = rng.randint(1, 3)
     wt = {
         'PERTURB': rng.uniform(1, 5), 'QUERY': rng.uniform(2, 6), 'DERIVE': rng.uniform(1, 4), 'EXTEND': rng.uniform(0, 1.5),
@@ -341,7 +355,7 @@ def generate(run_seed: int, tier: str = 'quick', stream: str = 'seq') -> dict:
             ops.append({'op': 'EXTEND', 'obj': ref(), 'other': ref(), 'client': client})
         elif kind == 'SPAWN':
             counter += 1
-            op = {'op': 'SPAWN', 'sys': rng.randrange(n_sys), 'mode': rng.pick(ROOT_MODES), 'name': f's{counter}', 'client': client}
+            op = {'op': 'SPAWN', 'sys': rng.randrange(n_sys), 'mode': 'disp_nobase' if rng.chance(0.06) else rng.pick(ROOT_MODES), 'name': f's{counter}', 'client': client}
             names.append(op['name'])
             ops.append(op)
         elif kind == 'DROP':
@@ -364,6 +378,9 @@ class Entry:
         self.name, self.T, self.M, self.depth, self.origin, self.kind = name, T, M, depth, origin, kind
         self.dc = dc
         self.sys = sys
+        if kind == 'nobase':
+            self.amb = False
+            return
         # displacement semantics undefined: a stored or implied step of half a cell or more
         self.amb = ambiguous_steps(M) or bool(T.coords_are_displacement and np.any(np.abs(np.asarray(T.coords)) > 0.5 - 1e-6))
 
@@ -431,10 +448,86 @@ class Run:
             self.violation('positions_changed', f'{e.name} ({why}): positions differ from the model by {d:.3g} (mod 1), representation '
                            f'{"displacement" if T.coords_are_displacement else "position"}', sig)
 
+    # -- displacement data without base positions: only what is defined for them is checked ---------------
+    def check_nobase(self, e: Entry, why: str):
+        T, M = e.T, e.M
+        self.oracle_checks += 1
+        sig = {'origin': e.origin}
+        ok = (T.coords_are_displacement is True and T.base_positions is None and np.shape(T.coords) == M['S'].shape
+              and np.allclose(np.asarray(T.coords, dtype=float), M['S'], rtol=0, atol=1e-12))
+        if not ok:
+            self.violation('positions_changed', f'{e.name} ({why}): a displacement-only trajectory (no base positions) no longer holds its displacements '
+                           f'(flag {T.coords_are_displacement}, base {"set" if T.base_positions is not None else "None"})', sig)
+        if [str(s) for s in T.species] != M['species'] or dict(T.metadata) != M['metadata'] or T.time_step != M['time_step']:
+            self.violation('metadata_changed', f'{e.name} ({why}): species/metadata/time step of a displacement-only trajectory changed', sig)
+
+    def nobase_twin(self, e: Entry):
+        T, _ = build_root(self.systems[e.sys], 'disp_nobase', e.M['idx'])
+        return T
+
+    def op_on_nobase(self, op, e: Entry):
+        """Any call on a displacement-only trajectory: same outcome (value or exception type) as on a fresh copy, and the data stay."""
+        self.cur = e.sys
+        twin = self.nobase_twin(e)
+
+        def act(T):
+            kind = op['op']
+            if kind == 'PERTURB':
+                how = op['how']
+                if how == 'to_positions':
+                    T.to_positions()
+                elif how == 'to_displacements':
+                    T.to_displacements()
+                elif how == 'read_positions':
+                    return np.asarray(T.positions)
+                else:
+                    return np.asarray(T.displacements)
+                return None
+            if kind == 'QUERY':
+                if op['q'] in EXPENSIVE or op['q'] in ('transitions', 'to_volume', 'get_structure'):
+                    T.positions  # they all start by asking for positions
+                    return None
+                return self.run_query(T, op, e.M)
+            if kind == 'DERIVE':
+                how = op['how']
+                if how == 'filter':
+                    return raw_positions(T.filter(self.sym(op['which'][0])))
+                if how == 'slice':
+                    a, b, c = op['slice']
+                    return raw_positions(T[slice(a, b, c)])
+                if how == 'split':
+                    return len(T.split(op['n']))
+                T.positions
+            return None
+
+        outs = []
+        for T in (twin, e.T):
+            try:
+                v = act(T)
+                outs.append(('ok', v))
+            except Exception as ex:  # noqa: BLE001
+                outs.append(('exc', type(ex).__name__))
+        self.oracle_checks += 1
+        self.stats.probe('nobase_calls')
+        what = op.get('how') or op.get('q')
+        self.trace.log(ev='NOBASE', step=self.step, name=e.name, call=what, twin=outs[0][0] if outs[0][0] == 'ok' else outs[0][1],
+                       got=outs[1][0] if outs[1][0] == 'ok' else outs[1][1])
+        (tk, tv), (gk, gv) = outs
+        if tk != gk or (tk == 'exc' and tv != gv):
+            self.violation('query_outcome_depends_on_history', f'{what} on the displacement-only trajectory {e.name}: {gk} {gv if gk == "exc" else ""}; '
+                           f'on a fresh copy: {tk} {tv if tk == "exc" else ""}', {'q': str(what)})
+        if tk == 'ok' and tv is not None and gv is not None:
+            a, b = np.asarray(tv, dtype=float), np.asarray(gv, dtype=float)
+            if a.shape != b.shape or not np.allclose(a, b, rtol=1e-7, atol=1e-9 * (1 + float(np.abs(a).max()) if a.size else 1), equal_nan=True):
+                self.violation('query_result_depends_on_history', f'{what} on the displacement-only trajectory {e.name} differs from the same call on a fresh copy', {'q': str(what)})
+        self.check_nobase(e, f'after {what}')
+
     def check_all(self, why: str):
         for e in self.pool.values():
             if e.kind == 'traj':
                 self.check_entry(e, why)
+            elif e.kind == 'nobase':
+                self.check_nobase(e, why)
         for h in self.held:
             self.check_held(h, why)
 
@@ -458,6 +551,8 @@ class Run:
     # -- ops ---------------------------------------------------------------------------------
     def op_perturb(self, op):
         e = self.pool.get(op['obj'])
+        if e is not None and e.kind == 'nobase':
+            return self.op_on_nobase(op, e)
         if e is None or e.kind != 'traj':
             return self.trace.log(ev='PERTURB', step=self.step, skipped=True)
         self.cur = e.sys
@@ -526,6 +621,8 @@ class Run:
     def op_derive(self, op):
         e = self.pool.get(op['obj'])
         how = op['how']
+        if e is not None and e.kind == 'nobase':
+            return self.op_on_nobase(op, e)
         if e is None or e.kind != 'traj':
             return self.trace.log(ev='DERIVE', step=self.step, how=how, skipped='no object')
         self.cur = e.sys
@@ -661,6 +758,13 @@ class Run:
         a.amb = a.amb or ambiguous_steps(a.M)
         self.stats.state('extend', 'disp' if ba else 'pos', 'disp' if bb else 'pos')
         self.trace.log(ev='EXTEND', step=self.step, a=a.name, b=b.name, client=op.get('client'))
+        # which metadata the extended trajectory carries is not pinned down beyond "its own stay": it must keep every old key with
+        # its old value (a merge into a NEW dict is tolerated and adopted by the model); everybody else must be exactly unchanged
+        md = dict(a.T.metadata)
+        if md != a.M['metadata'] and all(k in md and md[k] == v for k, v in a.M['metadata'].items()):
+            shared = [x.name for x in self.pool.values() if x is not a and x.kind == 'traj' and x.T.metadata is a.T.metadata]
+            if not shared:
+                a.M = dict(a.M, metadata=md)
         self.check_entry(a, 'after extend')
         self.check_entry(b, 'appended trajectory after extend')
 
@@ -668,11 +772,11 @@ class Run:
         si = op['sys'] % len(self.systems)
         self.cur = si
         T, M = build_root(self.systems[si], op['mode'], 100 + self.step)
-        e = Entry(op['name'], T, M, 0, 'root_' + op['mode'], sys=si)
+        e = Entry(op['name'], T, M, 0, 'root_' + op['mode'], kind='nobase' if op['mode'] == 'disp_nobase' else 'traj', sys=si)
         self.pool[e.name] = e
         self.stats.probe('spawned')
         self.trace.log(ev='SPAWN', step=self.step, name=e.name, sys=si, mode=op['mode'], client=op.get('client'))
-        self.check_entry(e, 'at creation')
+        (self.check_nobase if e.kind == 'nobase' else self.check_entry)(e, 'at creation')
 
     def op_drop(self, op):
         import gc
@@ -774,6 +878,8 @@ class Run:
 
     def op_query(self, op):
         e = self.pool.get(op['obj'])
+        if e is not None and e.kind == 'nobase':
+            return self.op_on_nobase(op, e)
         if e is None or e.kind != 'traj':
             return self.trace.log(ev='QUERY', step=self.step, q=op['q'], skipped='no object')
         self.cur = e.sys
@@ -791,6 +897,8 @@ class Run:
             if degenerate:
                 self.stats.relax('haven_ratio_degenerate')
                 return self.trace.log(ev='QUERY', step=self.step, q=q, skipped='degenerate')
+        if self.w.get('huge') and q in EXPENSIVE:
+            return self.trace.log(ev='QUERY', step=self.step, q=q, skipped='huge system')
         if e.amb and q in DISPLACEMENT_BASED:
             self.stats.relax('half_cell_step_skip')
             return self.trace.log(ev='QUERY', step=self.step, q=q, skipped='ambiguous steps')
@@ -960,7 +1068,7 @@ class Run:
         for i, (si, mode) in enumerate(self.roots):
             self.cur = si
             T, M = build_root(self.systems[si], mode, i)
-            e = Entry(f'r{i}', T, M, 0, 'root_' + mode, sys=si)
+            e = Entry(f'r{i}', T, M, 0, 'root_' + mode, kind='nobase' if mode == 'disp_nobase' else 'traj', sys=si)
             self.pool[e.name] = e
         self.trace.log(ev='world', systems=self.systems, roots=[list(r) for r in self.roots])
         self.check_all('initial')
